@@ -34,7 +34,7 @@ ASSUMPTIONS = ["statistical clauses are judged at 7 sigma (two-sided 2.6e-12 per
 PROBES = ["first_noise_on_empty", "later_noise_reestimated", "zero_data_then_noise", "table_share_index", "table_independent",
           "shipped_table", "truncated_floor_checked", "moment_test_chi2", "moment_test_gaussian", "half_integer_resolution",
           "stream_quadrature", "array_background_quadrature", "signal_before_noise", "preloaded_frame",
-          "estimates_not_observed_after_op", "two_resolutions_in_one_process"]
+          "estimates_not_observed_after_op", "two_resolutions_in_one_process", "rejected_noise_call"]
 
 
 def generate(rng, tier):
@@ -62,6 +62,9 @@ def generate(rng, tier):
             ops.append({"op": "from_obs", "kind": rng.choice(["chi2", "gaussian", "gaussian"]), "n": n, "n_std": rng.choice([n, n, n + 2]),
                         "with_min": rng.random() < 0.5, "share": rng.random() < 0.6, "tseed": rng.randrange(1 << 30),
                         "shipped": rng.random() < 0.12, "observe": rng.random() < 0.6})
+        elif r < 0.66:
+            # a call the library must reject (missing deviation, unknown noise type, unequal tables with index sharing)
+            ops.append({"op": "reject_noise", "how": rng.choice(["no_std", "bad_type", "unequal_tables"]), "x_mean": rng.choice([5.0, 10.0])})
         elif r < 0.72:
             ops.append({"op": "zero", "observe": rng.random() < 0.5})
         elif r < 0.80:
@@ -312,6 +315,22 @@ def execute(sc, ctx):
                         ctx.check(float(ret.min()) >= 0, "moments", "C11/moments/chi2_negative", "")
                 had_signal_only = False
                 after_zero = False
+            elif kind == "reject_noise":
+                try:
+                    if op["how"] == "no_std":
+                        fr.add_noise(op["x_mean"], noise_type="gaussian")
+                    elif op["how"] == "bad_type":
+                        fr.add_noise(op["x_mean"], 1.0, noise_type="poisson")
+                    else:
+                        fr.add_noise_from_obs(x_mean_array=np.array([1.0, 2.0, 3.0]), x_std_array=np.array([1.0, 2.0]),
+                                              share_index=True, noise_type="gaussian")
+                    raised = False
+                except (ValueError, IndexError):
+                    raised = True
+                ctx.fired("rejected_noise_call")
+                ctx.check(raised, "reject", "C11/reject/invalid_noise_call_accepted/" + op["how"], "no exception")
+                # a rejected call adds nothing: the frame is as it was (data here; the estimates show at the next observation)
+                ctx.check(np.array_equal(fr.data, data_before), "reject", "C11/reject/data_changed_by_rejected_call/" + op["how"], "")
             elif kind == "zero":
                 fr.zero_data()
                 model_empty[id(fr)] = True
